@@ -36,6 +36,9 @@ def parse(text: str, statement_stream_processor: "StatementStreamProcessor", *, 
         raise ex
     except parsimonious.ParseError as ex:
         raise DSDLSyntaxError("Syntax error", line=int(ex.line())) from None  # type: ignore
+    except RecursionError:
+        # The parser is recursive, so expressions nested several dozen levels deep exhaust the interpreter stack.
+        raise DSDLSyntaxError("The definition is nested too deeply", line=pr.current_line_number) from None
     except parsimonious.VisitationError as ex:  # pragma: no cover
         # noinspection PyBroadException
         try:
@@ -132,7 +135,7 @@ class _ParseTreeProcessor(parsimonious.NodeVisitor):
 
     # Intentional exceptions that shall not be treated as parse errors.
     # Beware that those might be propagated from recursive parser instances!
-    unwrapped_exceptions = (_error.Error, SystemError, MemoryError, SystemExit)  # type: ignore
+    unwrapped_exceptions = (_error.Error, SystemError, MemoryError, SystemExit, RecursionError)  # type: ignore
 
     def __init__(self, statement_stream_processor: StatementStreamProcessor, *, strict: bool):
         assert isinstance(statement_stream_processor, StatementStreamProcessor)
